@@ -412,7 +412,7 @@ PROPERTIES["C09"] = dict(
         H("c07_fanout", "c07", [Q, T], "pre-count formula: get_num_children = ∏ apertures", functions=["a5::core::cell_info::get_num_children"], bounds="c−p ≤ 8"),
         H("c07_children_d2_r1", "c07", [T], "∀ quintant cell (resolution 1), ∀ i<16: cell_to_children(c,3) — uncompact's callee, two levels in one call — has 16 entries and [i] = spec_child(spec_child(c,i>>2),i&3)",
           functions=["a5::core::serialization::cell_to_children"] + SER, bounds="fan-out 16; loops 1×1×16 (unwinding assertions on); parent resolution 1", unwindset=ch_unwind(1, 1, 16), assumes=[VALID, "get_resolution ↦ res_stub"], deps=["oracle_res_equiv", "c07_children_d1"], timeout=2400, mem_gb=40, mem_est=20),
-        H("c09_world_r1", "c09", [T], "uncompact([world],1) = 60 quintant cells, face-major, pairwise distinct (symbolic index pair), each canonical of resolution 1 — two levels in one call with the real callee", functions=UNC,
+        H("c09_world_r1", "c09", [Q, T], "uncompact([world],1) = 60 quintant cells, face-major, pairwise distinct (symbolic index pair), each canonical of resolution 1 — two levels in one call with the real callee", functions=UNC,
           bounds="concrete input; fan-out 60 fully unwound", timeout=2400, mem_gb=30, mem_est=12, assumes=["get_resolution ↦ res_stub"], deps=["oracle_res_equiv", "oracle_valid_equiv"]),
         H("c09_world", "c09", [Q, T], "uncompact([world],0) = the 12 base cells in face order, each canonical of resolution 0", functions=UNC,
           bounds="concrete input; fan-out 12 fully unwound", timeout=1500, mem_gb=16, assumes=["get_resolution ↦ res_stub"], deps=["oracle_res_equiv", "oracle_valid_equiv"]),
